@@ -64,7 +64,11 @@ func GetSession(sid string) (*Session, bool) {
 	// Extend session expiration if close to expiring
 	if time.Until(sess.ExpiresAt) <= extendThreshold {
 		slog.Debug("Session close to expiring, extending expiration", "session_id", sid, "expires_at", sess.ExpiresAt)
-		sess.ExpiresAt = time.Now().Add(defaultLifetime)
+		// Sessions are shared between concurrent requests and the GC, so they are never
+		// modified in place: store an extended copy instead.
+		extended := *sess
+		extended.ExpiresAt = time.Now().Add(defaultLifetime)
+		sess = &extended
 		sessionStore.Set(sid, sess)
 	}
 
